@@ -70,7 +70,7 @@ pub fn on_thread_panic(tid: usize, payload: Box<dyn std::any::Any + Send>) {
 fn panic_prop(file: &str, default: &str) -> String {
     if file.contains("utils.rs") || file.contains("strong.rs") || file.contains("weak.rs") {
         // count-word assertions: an owner/token accounting error
-        if default.starts_with('C') && ["C01", "C02", "C03", "C04", "C05", "C10"].contains(&default) {
+        if default.starts_with('C') && ["C01", "C02", "C03", "C04", "C05", "C08", "C09", "C10"].contains(&default) {
             return default.to_string();
         }
         return "C01".to_string();
@@ -174,6 +174,12 @@ fn run_interp<M: AlignMarker>(desc: &RunDesc) -> ! {
     sh.global_epoch_addr = circ::verif::global_epoch_addr(circ::verif::default_collector());
     sh.block_size = circ::verif::block_layout::<Node<M>>().0;
     sh.ebr.enable(sh.global_epoch_addr);
+    match desc.family.as_str() {
+        "rc-cells" => sh.strong_extra = ",C08",
+        "rc-wcells" | "dir-w" => sh.weak_extra = ",C09",
+        "tls" | "ebr-churn" => sh.leak_extra = ",C20",
+        _ => {}
+    }
     shadow::install(sh);
     let mut specs = Vec::new();
     let max_phase = desc.threads.iter().map(|t| t.phase).max().unwrap_or(0);
@@ -240,7 +246,7 @@ pub fn run_in_child(desc: &RunDesc) -> ! {
     match desc.family.as_str() {
         "queue" => crate::fam_queue::run(desc),
         "list" => crate::fam_list::run(desc),
-        "chain" | "chain-stack" => crate::fam_chain::run(desc),
+        "chain" | "chain-stack" | "chain-weak" => crate::fam_chain::run(desc),
         _ => {
             if desc.cfg.align == 32 {
                 run_interp::<A32>(desc)
